@@ -285,23 +285,22 @@ class Point(object):
 
         """
 
-        # If the attribute value is not None, then simply return it.
-        # Otherwise, compute it and return it.
-        if self._value is None:
-            # If leaf, the PEP would have filled the attribute after solving the problem.
-            if self._is_leaf:
+        # If leaf, the PEP would have filled the attribute after solving the problem.
+        if self._is_leaf:
+            if self._value is None:
                 raise ValueError("The PEP must be solved to evaluate Points!")
-            # If linear combination, combine the values of the leaf, and store the result before returning it.
-            else:
-                # Leaf values have the dimension of the problem that was solved,
-                # which may differ from Point.counter if leaf points were created since then.
-                value = None
-                for point, weight in self.decomposition_dict.items():
-                    term = weight * point.eval()
-                    value = term if value is None else value + term
-                if value is None:
-                    value = np.zeros(Point.counter)
-                self._value = value
+        # If linear combination, combine the values of the leaf, and store the result before returning it.
+        # This is done at each call, so that the value always corresponds to the latest solve of the PEP.
+        else:
+            # Leaf values have the dimension of the problem that was solved,
+            # which may differ from Point.counter if leaf points were created since then.
+            value = None
+            for point, weight in self.decomposition_dict.items():
+                term = weight * point.eval()
+                value = term if value is None else value + term
+            if value is None:
+                value = np.zeros(Point.counter)
+            self._value = value
 
         return self._value
 
